@@ -482,7 +482,7 @@ class C18:
                 count("updates_crashed")
                 if has_knob:
                     count("updates_with_linear_knob")
-                for kind in ("w", "r", "act"):
+                for kind in ("w", "r", "act", "fn"):
                     pos = [j for j, ev in enumerate(W) if ev[0] == kind]
                     ks = list(range(len(pos)))
                     if len(ks) > C18.MAX_K:
@@ -500,7 +500,7 @@ class C18:
                         fst = sub.step(op, fault={"kind": kind, "n": k, "fired": False, "tag": k, "exc": etype, "noargs": noargs})
                         nfaults += 1
                         count("events", len(fst.trace) if fst is not None else 0)
-                        count("fault:%s_raises" % {"w": "write", "r": "read", "act": "action"}[kind])
+                        count("fault:%s_raises" % {"w": "write", "r": "read", "act": "action", "fn": "called_function"}[kind])
                         defs_ok = (before["defs"], O.definitions(ref.world.mgr))
                         C18._check_faulted(sub, fst, W, pos[k], kind, before, strict, where, has_knob, defs_ok)
                         # optionally a second faulty attempt in a row
@@ -789,7 +789,15 @@ class C17:
                     if special is not None:
                         tr, exc = run_traced(special)
                     elif a[0] == "clonechk":
-                        tr, exc = run_traced(lambda: mgr.clone())
+                        def clone_and_edit():
+                            # a clone of a frozen manager is a manager of its own (not frozen): editing IT is legal and is none
+                            # of the frozen one's business
+                            twin = mgr.clone()
+                            tids = sorted(twin.tasks, key=str)
+                            if tids:
+                                twin.unregister(tids[0])
+                            twin.register(xd.tasks.FunctionTask(("probe", 1), _noop, set(), {w.ref(spec.leaves[0])}))
+                        tr, exc = run_traced(clone_and_edit)
                     else:
                         tr, exc = run_traced(lambda: w.apply(a))
                     after = O.snapshot(w)
